@@ -17,7 +17,9 @@ RULE = ("case = current_date (random, or at day/month/year/leap/century boundari
         "2000/2100/2024-02-29) x days in {omitted,0,1,2,7,30,365,3650,-1} x hours in "
         "{omitted,0,1,24,100,10000} x matcher variant (single pattern, several patterns, "
         "derived field) x 4..40 lines whose timestamps are exactly on, one second before / "
-        "after, or far from the boundary, plus undated and look-alike lines; non-trivial = "
+        "after, or far from the boundary, plus undated and look-alike lines; in 15% of the cases the same "
+        "constraint object is applied to a FILE in between (it is then also a file-level "
+        "constraint); non-trivial = "
         "the lines include a pass, a fail and an undecidable one; distinct by case hash")
 
 SPECIAL = ['2024-03-01 00:00:00', '2024-02-29 12:00:00', '2023-03-01 00:00:00',
@@ -80,8 +82,11 @@ def gen_case(rng, tier):
                                      '[31/02/2023 00:00:00] y', '13/01/23 00:00:00']))
         else:
             lines.append(matchers.fmt_ts(kind, t, rng) + rng.choice(['', ' msg', ' \n', '\n']))
-    return {'cur': cur.strftime('%Y-%m-%d %H:%M:%S'), 'kw': kw, 'matcher': kind,
+    case = {'cur': cur.strftime('%Y-%m-%d %H:%M:%S'), 'kw': kw, 'matcher': kind,
             'lines': lines}
+    if rng.random() < 0.15:
+        case['file_at'] = rng.randrange(1, len(lines) + 1)
+    return case
 
 
 def run_impl(case):
@@ -92,7 +97,20 @@ def run_impl(case):
                                     ts_matcher_cls=matchers.MATCHERS[case['matcher']],
                                     **case['kw'])
     outs = []
-    for ln in case['lines']:
+    for k, ln in enumerate(case['lines']):
+        if case.get('file_at') == k:
+            # the same constraint object is also the file-level constraint of some file
+            # (FileSearcher(constraint=c) + SearchDef(constraints=[c])): the line counters keep
+            # describing the lines decided so far
+            import tempfile
+            with tempfile.NamedTemporaryFile(prefix='vh-') as f:
+                f.write(b'2001-01-01 00:00:00 old\n' + case['cur'].encode() + b' new\n')
+                f.flush()
+                with open(f.name, 'rb') as fd:
+                    try:
+                        c.apply_to_file(fd)
+                    except Exception:  # pylint: disable=broad-except
+                        pass
         try:
             outs.append('p' if c.apply_to_line(ln) else 'f')
         except CouldNotApplyConstraint:
